@@ -557,7 +557,7 @@ def valid(m, op):
         b = m.blobs[n.blob]
         if b.length == 0 or n.blob in m.eltorito_blobs():
             return False
-        if op.get('bit') and (b.bit or b.length < 64):
+        if op.get('bit') and b.bit:
             return False
         if m.eltorito:
             return len(m.eltorito['entries']) < 31
